@@ -695,6 +695,45 @@ def purity_clause(model, rep, funcs):
                clause="5 purity", stmt=f"def {mname}")
 
 
+# --------------------------------------------------------------------------- clause 8: derived objects do not share mutable containers (S27)
+def sharing_clause(model, rep, funcs):
+    """A loader derived from another one (replace / copy / binning / filter ...) must not hold the *same* dict or list object in one of its
+    fields: registering a tomogram in one of them would change the other."""
+    n = 0
+    for ci in model.all_classes:
+        if not ci.module.relpath.startswith("acryo/loader/"):
+            continue
+        init = ci.find_method("__init__")
+        if init is None:
+            continue
+        mutable = set()
+        for st in walk_no_nested(init.node):
+            tgt = val = None
+            if isinstance(st, ast.Assign) and len(st.targets) == 1:
+                tgt, val = st.targets[0], st.value
+            elif isinstance(st, ast.AnnAssign) and st.value is not None:
+                tgt, val = st.target, st.value
+            if isinstance(tgt, ast.Attribute) and isinstance(tgt.value, ast.Name) and tgt.value.id == "self":
+                if isinstance(val, (ast.Dict, ast.List, ast.Set)) or (isinstance(val, ast.Call) and dotted(val.func) in ("dict", "list", "set", "OrderedDict")):
+                    mutable.add(tgt.attr)
+        if not mutable:
+            continue
+        for fn in model.all_functions:
+            if fn.cls is None or not (fn.cls is ci or fn.cls.is_subclass_of(ci)) or fn.name == "__init__":
+                continue
+            for st in walk_no_nested(fn.node):
+                if isinstance(st, ast.Assign) and len(st.targets) == 1 and isinstance(st.targets[0], ast.Attribute) and st.targets[0].attr in mutable and \
+                        isinstance(st.targets[0].value, ast.Name) and st.targets[0].value.id != "self":
+                    n += 1
+                    rep.instance("S27", fn.loc(st))
+                    v = st.value
+                    alias = isinstance(v, ast.Attribute) and isinstance(v.value, ast.Name) and v.value.id == "self" and v.attr in mutable
+                    rep.ob("S27", fn.anchor, f"the derived object gets its own `{st.targets[0].attr}` container (copy / new dict), not the parent's object", not alias,
+                           f"`{norm_src(st)}` makes both loaders share one container: add_tomogram on either of them changes (or is rejected by) the other" if alias else "",
+                           node=st, fn=fn, clause="5 purity")
+    rep.floor("S27", 2, "(BatchLoader.replace / binning assign the image registry of the derived loader)")
+
+
 # --------------------------------------------------------------------------- clause 6: partition
 def partition_clause(model, rep, funcs):
     n = 0
@@ -812,3 +851,4 @@ def check(model, rep, tier):
     purity_clause(model, rep, funcs)
     partition_clause(model, rep, funcs)
     registry_clause(model, rep, funcs)
+    sharing_clause(model, rep, funcs)
